@@ -1,0 +1,25 @@
+//go:build verif
+
+package keeper
+
+// Contracts for the deductive checker in /verif (comment-only; compiled only with -tags verif).
+// C16, query side: what the bank precompile learns from the erc20 keeper. The three store indexes are abstract functions of the
+// Cosmos state (/verif/specs/c16q/73_bank_query.spec); the leaf getters are trusted, GetCoinAddress is verified.
+
+/*@
+func (Keeper).GetDenomMap
+    trusted
+    ensures result == erc20_denom_id(cstate, ctx, denom)
+func (Keeper).GetERC20Map
+    trusted
+    ensures result == erc20_pair_id(cstate, ctx, erc20)
+func (Keeper).GetTokenPair
+    trusted
+    ensures result.1 == erc20_pair_found(cstate, ctx, id) && (result.1 ==> result.0 == erc20_pair(cstate, ctx, id))
+
+// the ERC-20 address of a denomination: the contract of the registered pair; for a denomination without a pair the
+// hash-derived address of an IBC voucher; an error otherwise
+func (Keeper).GetCoinAddress
+    ensures ok: (result.1 == nil) == erc20_coin_addr_ok(cstate, ctx, denom)
+    ensures addr: result.1 == nil ==> result.0 == erc20_coin_addr(cstate, ctx, denom)
+@*/
